@@ -186,14 +186,14 @@ Lemma ref_ok_resolves : forall e fl u, ref_ok e u = true ->
 Proof.
   intros e fl [n k r o] H. unfold ref_ok in H. cbn [uf_kind] in H. unfold resolves, field_resolves, of_ufield. cbn [uf_kind].
   destruct k as [pt j|m|m|m|p f t|tn j|i|i|sfs|sfs|os];
-    cbn [f_type f_inline ref_resolves il_fields forallb andb]; rewrite ?andb_true_r; try reflexivity.
+    cbn [f_type f_inline ref_resolves il_fields forallb andb]; rewrite ?inline_type_resolves; rewrite ?andb_true_r; try reflexivity.
   - apply resolves_local. now apply names_object_defined.
   - apply resolves_local. now apply names_oneof_defined.
   - apply resolves_local. now apply names_enum_defined.
   - now apply item_resolves.
   - now apply item_resolves.
-  - now apply sfields_resolve.
-  - now apply sfields_resolve.
+  - cbn [andb]. now apply sfields_resolve.
+  - cbn [andb]. now apply sfields_resolve.
 Qed.
 
 Lemma closed_holds : forall e fl, quantified e -> closed (expand_with e fl) = true.
@@ -382,15 +382,26 @@ Lemma of_ufield_facts : forall u,
   f_json (of_ufield u) = uf_name u /\ f_optional (of_ufield u) = sp_presence u
   /\ is_map_field (of_ufield u) = is_map_kind u.
 Proof.
-  intros [n k r o]. unfold of_ufield, is_map_kind, is_map_field, sp_presence, is_repeated_kind. cbn [uf_kind uf_optional].
-  destruct k as [pt j|m|m|m|p f t|tn j|i|i|sfs|sfs|os]; cbn; repeat split;
-    try reflexivity; try (now rewrite andb_true_r); try (now rewrite andb_false_r); destruct i; reflexivity.
+  intros [n k r o d kf c].
+  unfold of_ufield, is_map_kind, is_map_field, sp_presence, is_repeated_kind, is_inline_kind, inline_type.
+  cbn [uf_kind uf_optional uf_name uf_container uf_desc uf_keyfmt].
+  destruct k as [pt j|m|m|m|p f t|tn j|i|i|sfs|sfs|os]; cbn [f_json f_optional f_type andb negb];
+    repeat split; try reflexivity; try (now rewrite andb_true_r); try (now rewrite andb_false_r);
+    try (destruct i; reflexivity);
+    try (now rewrite negb_involutive);
+    try (destruct (c =? 2); reflexivity).
 Qed.
+
+Lemma inline_of_none : forall f, f_inline f = None -> inline_of f = None.
+Proof. intros f H. unfold inline_of. now rewrite H. Qed.
+Lemma inline_of_inline_type : forall j c n k r q fl p te fi fo o il d kf,
+  inline_of (mkF13 j (inline_type c n k) r q fl p te fi fo o (Some il) d kf) = Some (n, k, il).
+Proof. intros. unfold inline_of, inline_type. cbn [f_inline f_type]. destruct (c =? 2); reflexivity. Qed.
 
 Lemma no_inline_names : forall fs, Forall (fun f => f_inline f = None) fs -> inline_names fs = [] /\ inline_scopes fs = [].
 Proof.
   induction 1 as [|f l H _ [IH1 IH2]]; [split; reflexivity|]. unfold inline_names, inline_scopes in *. cbn [flat_map].
-  rewrite H, IH1, IH2. split; reflexivity.
+  rewrite (inline_of_none f H), H, IH1, IH2. split; reflexivity.
 Qed.
 
 (* a message without nested messages and without inline types has one scope *)
@@ -458,9 +469,10 @@ Qed.
 
 Lemma user_inline_names : forall fs, inline_names (map of_ufield fs) = sp_inline_names fs.
 Proof.
-  induction fs as [|[n k r o] fs IH]; [reflexivity|]. unfold inline_names, sp_inline_names in *. cbn [map flat_map].
-  rewrite IH. f_equal. unfold of_ufield. cbn [uf_kind uf_name].
-  destruct k as [pt j|m|m|m|p f t|tn j|i|i|sfs|sfs|os]; cbn [f_inline f_type il_kind il_options N.eqb Pos.eqb]; try reflexivity.
+  induction fs as [|[n k r o d kf c] fs IH]; [reflexivity|]. unfold inline_names, sp_inline_names in *. cbn [map flat_map].
+  rewrite IH. f_equal. unfold of_ufield. cbn [uf_kind uf_name uf_container].
+  destruct k as [pt j|m|m|m|p f t|tn j|i|i|sfs|sfs|os]; rewrite ?inline_of_inline_type;
+    try (rewrite inline_of_none by reflexivity); cbn [il_kind il_options N.eqb Pos.eqb]; try reflexivity.
   now rewrite inline_enum_values_eq.
 Qed.
 
